@@ -152,6 +152,27 @@ pub fn long_cfg() -> GenCfg {
     }
 }
 
+/// up to 150 mostly independent systems and no barriers: single stages with more than 64 groups
+pub fn very_wide_cfg() -> GenCfg {
+    GenCfg {
+        max_ops: 150,
+        universe_max: 95,
+        extended_universe: true,
+        max_reads: 1,
+        max_writes: 1,
+        write_chance: 5,
+        p_dep: 1,
+        max_deps: 2,
+        p_barrier: 0,
+        p_batch: 0,
+        p_tl: 0,
+        p_static: 0,
+        batch_decl: false,
+        rt_skew: 0,
+        ..GenCfg::default()
+    }
+}
+
 pub fn dense_conflict_cfg() -> GenCfg {
     GenCfg {
         universe_max: 5,
@@ -288,6 +309,17 @@ pub fn subs_for(id: &str) -> Vec<Sub> {
                 3_000,
                 80_000,
             ),
+            sub(
+                p_builder::C18 {
+                    name: "c18-very-wide",
+                    rule: "very-wide class: up to 150 mostly independent systems over 96 resources, no barriers: stages with more than 64 groups, then systems that conflict with or depend on members of late groups; every call well-formed or with one planted ill-formed call",
+                    cfg: very_wide_cfg(),
+                    stream_len: 2500,
+                    plant: true,
+                },
+                4_000,
+                100_000,
+            ),
         ],
         "C19" => vec![
             sub(
@@ -420,6 +452,18 @@ pub fn subs_for(id: &str) -> Vec<Sub> {
             3_000_000,
         )],
         "C01" => vec![
+            sub(
+                lp(
+                    "C01",
+                    "c01-layout-very-wide",
+                    "very-wide class: up to 150 mostly independent systems over 96 resources without barriers, i.e. stages with more than 64 groups, followed by systems that conflict with or depend on members of the late groups",
+                    very_wide_cfg(),
+                    2500,
+                    p_layout::o_c01,
+                ),
+                4_000,
+                100_000,
+            ),
             sub(
                 lp(
                     "C01",
